@@ -294,7 +294,7 @@ def tree_cache(func):
 
 def flatten_dict(
     input_dict: dict[str, Any],
-    prefix: str = '',
+    prefix: str | None = None,
     sep: str = '&',
 ) -> tuple[dict[str, Any], tuple[str, ...]]:
   """Flattens potentially nested `input_dict`."""
@@ -303,7 +303,7 @@ def flatten_dict(
   for k, v in input_dict.items():
     if sep in k:
       raise ValueError(f'Key {k} contains {sep=}. Use different name or sep.')
-    new_key = prefix + sep + k if prefix else k
+    new_key = k if prefix is None else prefix + sep + k
     if isinstance(v, dict) and v:
       sub_dict, sub_empty_keys = flatten_dict(v, new_key, sep=sep)
       items.extend(sub_dict.items())
